@@ -11,7 +11,7 @@
    Lemmas at the end: dec_parse (dec_print d) reads back a numerically equal decimal; dec_print is
    a fixed point of parse-then-print. *)
 From Coq Require Import String List Arith NArith ZArith Bool Lia ZifyN ZifyNat ZifyBool.
-From J5V.lib Require Import Radix Json JsonPrint.
+From J5V.lib Require Import Radix Json JsonPrint Civil.
 Import ListNotations.
 Local Open Scope Z_scope.
 Local Open Scope bool_scope.
@@ -99,3 +99,210 @@ Definition dec_normalise (s : list N) : option (list N) :=
   | Some (m, e) => if (e <=? max_decimal_exponent) && (- max_decimal_exponent <=? e) then Some (dec_print m e) else None
   | None => None
   end.
+
+(* ================================================================== lemmas *)
+Arguments Nat.sub : simpl never.
+
+(* ---------------------------------------------------------------- digit strings *)
+Definition dval (ds : list N) : N := of_digits_be 10 0 (map (fun c => (c - 48)%N) ds).
+
+Lemma dval_app a b : dval (a ++ b) = (dval a * 10 ^ N.of_nat (length b) + dval b)%N.
+Proof.
+  unfold dval. rewrite map_app, of_digits_be_app.
+  set (x := of_digits_be 10 0 (map (fun c => (c - 48)%N) a)). clearbody x.
+  revert x. induction b as [|c r IH]; intros x.
+  - cbn. lia.
+  - cbn [map length]. unfold of_digits_be in *. cbn [fold_left]. rewrite IH.
+    rewrite Nnat.Nat2N.inj_succ, N.pow_succ_r' by lia.
+    assert (E : fold_left (fun a0 d : N => (a0 * 10 + d)%N) (map (fun c0 : N => (c0 - 48)%N) r) (0 * 10 + (c - 48))%N =
+                ((c - 48) * 10 ^ N.of_nat (length r) + fold_left (fun a0 d : N => (a0 * 10 + d)%N) (map (fun c0 : N => (c0 - 48)%N) r) 0)%N).
+    { replace (0 * 10 + (c - 48))%N with (c - 48)%N by lia. rewrite IH. lia. }
+    fold (dval r) in *. unfold dval in *. rewrite E. ring.
+Qed.
+
+Lemma dval_zeros k : dval (repeat 48%N k) = 0%N.
+Proof.
+  unfold dval. rewrite map_repeat. change (48 - 48)%N with 0%N.
+  rewrite <- (app_nil_r (repeat 0%N k)), of_digits_be_zeros. reflexivity.
+Qed.
+
+Lemma dval_digits_of n : dval (digits_of n) = n.
+Proof. apply digits_value. Qed.
+
+Lemma parse_N_dval ds : ds <> [] -> forallb is_digit ds = true -> parse_N ds = Some (dval ds).
+Proof. intros Hne Hd. unfold parse_N. destruct ds; [congruence|]. rewrite Hd. reflexivity. Qed.
+
+Lemma all_digits_repeat k : forallb is_digit (repeat 48%N k) = true.
+Proof. apply forallb_forall. intros x Hx. apply repeat_spec in Hx. subst. reflexivity. Qed.
+
+Lemma forallb_firstn {A} (f : A -> bool) n l : forallb f l = true -> forallb f (firstn n l) = true.
+Proof.
+  rewrite !forallb_forall. intros H x Hx. apply H. rewrite <- (firstn_skipn n l). apply in_or_app. left. exact Hx.
+Qed.
+Lemma forallb_skipn {A} (f : A -> bool) n l : forallb f l = true -> forallb f (skipn n l) = true.
+Proof.
+  rewrite !forallb_forall. intros H x Hx. apply H. rewrite <- (firstn_skipn n l). apply in_or_app. right. exact Hx.
+Qed.
+
+(* ---------------------------------------------------------------- trailing zeros *)
+Lemma trim_rev_spec l : exists j, l = repeat 48%N j ++ trim_trailing_zeros_rev l.
+Proof.
+  induction l as [|c r [j IH]]; [exists 0%nat; reflexivity|]. cbn [trim_trailing_zeros_rev].
+  destruct (N.eqb c 48) eqn:E.
+  - apply N.eqb_eq in E. subst c. exists (S j). cbn [repeat app]. rewrite <- IH. reflexivity.
+  - exists 0%nat. reflexivity.
+Qed.
+
+Lemma trim_spec l : exists j, l = trim_trailing_zeros l ++ repeat 48%N j.
+Proof.
+  unfold trim_trailing_zeros. destruct (trim_rev_spec (rev l)) as [j H]. exists j.
+  apply (f_equal (@rev N)) in H. rewrite rev_involutive, rev_app_distr, rev_repeat_N in H. exact H.
+Qed.
+
+Lemma trim_digits l : forallb is_digit l = true -> forallb is_digit (trim_trailing_zeros l) = true.
+Proof.
+  intros H. destruct (trim_spec l) as [j E]. rewrite E in H. rewrite forallb_app in H.
+  apply andb_true_iff in H as [H _]. exact H.
+Qed.
+
+(* ---------------------------------------------------------------- no 'e', no '.' in digit strings *)
+Definition no_e (c : N) : Prop := c <> 101%N /\ c <> 69%N.
+Lemma split_at_e_none s : Forall no_e s -> split_at_e s = (s, None).
+Proof.
+  induction 1 as [|c r [H1 H2] Hr IH]; [reflexivity|]. cbn [split_at_e].
+  replace (N.eqb c 101 || N.eqb c 69) with false by lia. rewrite IH. reflexivity.
+Qed.
+Lemma digits_no_e s : forallb is_digit s = true -> Forall no_e s.
+Proof.
+  induction s as [|c r IH]; [constructor|]. cbn [forallb]. intros H. apply andb_true_iff in H as [H1 H2].
+  constructor; [unfold is_digit, no_e in *; lia|apply IH; exact H2].
+Qed.
+Lemma count_dots_digits s : forallb is_digit s = true -> count_dots s = 0%nat.
+Proof.
+  induction s as [|c r IH]; [reflexivity|]. cbn [forallb count_dots]. intros H. apply andb_true_iff in H as [H1 H2].
+  replace (N.eqb c 46) with false by (unfold is_digit in H1; lia). apply IH. exact H2.
+Qed.
+Lemma split_at_dot_digits a b : forallb is_digit a = true -> split_at_dot (a ++ 46%N :: b) = (a, b).
+Proof.
+  induction a as [|c r IH]; [reflexivity|]. cbn [forallb app split_at_dot]. intros H. apply andb_true_iff in H as [H1 H2].
+  replace (N.eqb c 46) with false by (unfold is_digit in H1; lia). rewrite IH by exact H2. reflexivity.
+Qed.
+Lemma count_dots_app a b : count_dots (a ++ b) = (count_dots a + count_dots b)%nat.
+Proof. induction a as [|c r IH]; [reflexivity|]. cbn [app count_dots]. destruct (N.eqb c 46); rewrite IH; reflexivity. Qed.
+
+(* signed reading *)
+Lemma parse_Z_signed (neg : bool) ds : ds <> [] -> forallb is_digit ds = true ->
+  parse_Z ((if neg then [45%N] else []) ++ ds) = Some (if neg then - Z.of_N (dval ds) else Z.of_N (dval ds)).
+Proof.
+  intros Hne Hd. destruct neg; cbn [app].
+  - unfold parse_Z. change (45 =? 45)%N with true. cbv iota. rewrite parse_N_dval by assumption. reflexivity.
+  - unfold parse_Z. destruct ds as [|c r] eqn:E; [congruence|]. cbn [forallb] in Hd. apply andb_true_iff in Hd as [H1 H2].
+    replace (c =? 45)%N with false by (unfold is_digit in H1; lia).
+    replace (c =? 43)%N with false by (unfold is_digit in H1; lia).
+    rewrite parse_N_dval; [reflexivity|discriminate|cbn [forallb]; rewrite H1, H2; reflexivity].
+Qed.
+
+Lemma print_Z_chars z : Forall no_e (print_Z z) /\ count_dots (print_Z z) = 0%nat.
+Proof.
+  destruct z as [|p|p]; cbn [print_Z].
+  - split; [repeat constructor; unfold no_e; lia|reflexivity].
+  - pose proof (digits_of_digits (Npos p)) as H. split; [apply digits_no_e; exact H|apply count_dots_digits; exact H].
+  - pose proof (digits_of_digits (Npos p)) as H. split; [constructor; [unfold no_e; lia|apply digits_no_e; exact H]|].
+    cbn [count_dots]. change (N.eqb 45 46) with false. cbv iota. apply count_dots_digits. exact H.
+Qed.
+
+Theorem dec_parse_print m e : -2147483648 <= e <= 2147483647 ->
+  exists m' e', dec_parse (dec_print m e) = Some (m', e') /\ dec_eq (m, e) (m', e').
+Proof.
+  intros He. unfold dec_print. destruct (0 <=? e) eqn:E0.
+  - (* an integer written out in full *)
+    destruct (print_Z_chars (m * 10 ^ e)) as [Hne Hnd].
+    exists (m * 10 ^ e), 0. split.
+    + unfold dec_parse. rewrite split_at_e_none by exact Hne. rewrite Hnd. cbn [Nat.ltb Nat.leb Nat.eqb].
+      rewrite parse_print_Z. reflexivity.
+    + unfold dec_eq. cbn [fst snd]. rewrite Z.min_r by lia. rewrite Z.sub_0_r, Z.sub_diag. cbn. lia.
+  - (* digits with a decimal point *)
+    set (n := Z.to_N (Z.abs m)). set (str := digits_of n). set (k := Z.to_nat (- e)).
+    assert (Hk : (0 < k)%nat) by (unfold k; lia).
+    assert (Hsd : forallb is_digit str = true) by apply digits_of_digits.
+    assert (Hsn : str <> []) by apply digits_of_nonempty.
+    assert (Hsv : dval str = n) by apply dval_digits_of.
+    (* integer and fractional digit strings *)
+    assert (Hsplit : exists ip fp, (if Nat.ltb k (length str)
+                        then (firstn (length str - k) str, skipn (length str - k) str)
+                        else ([48%N], repeat 48%N (k - length str) ++ str)) = (ip, fp) /\
+                      ip <> [] /\ forallb is_digit ip = true /\ forallb is_digit fp = true /\
+                      length fp = k /\ dval (ip ++ fp) = n).
+    { destruct (Nat.ltb k (length str)) eqn:Ek.
+      - apply Nat.ltb_lt in Ek. eexists _, _. split; [reflexivity|]. split.
+        + intros Hf. apply (f_equal (@length N)) in Hf. rewrite firstn_length in Hf. cbn in Hf. lia.
+        + split; [apply forallb_firstn; exact Hsd|]. split; [apply forallb_skipn; exact Hsd|].
+          split; [rewrite skipn_length; lia|]. rewrite firstn_skipn. exact Hsv.
+      - apply Nat.ltb_ge in Ek. eexists _, _. split; [reflexivity|]. split; [discriminate|].
+        split; [reflexivity|]. split; [rewrite forallb_app, all_digits_repeat; exact Hsd|].
+        split; [rewrite app_length, repeat_length; lia|].
+        change ([48%N] ++ repeat 48%N (k - length str) ++ str) with (repeat 48%N (S (k - length str)) ++ str).
+        rewrite dval_app, dval_zeros. lia. }
+    destruct Hsplit as (ip & fp & -> & Hip & Hipd & Hfpd & Hfl & Hval). cbv beta iota zeta.
+    destruct (trim_spec fp) as [j Hj]. set (fp' := trim_trailing_zeros fp) in *.
+    assert (Hfpd' : forallb is_digit fp' = true) by (apply trim_digits; exact Hfpd).
+    assert (Hlen : (length fp' + j = k)%nat) by (rewrite <- Hfl, Hj, app_length, repeat_length; reflexivity).
+    set (neg := m <? 0).
+    assert (Hout : (if neg then 45%N :: ip ++ match fp' with [] => [] | _ => 46%N :: fp' end
+                    else ip ++ match fp' with [] => [] | _ => 46%N :: fp' end) =
+                   (if neg then [45%N] else []) ++ ip ++ match fp' with [] => [] | _ => 46%N :: fp' end)
+      by (destruct neg; reflexivity).
+    rewrite Hout. clear Hout.
+    assert (Hsign : forall x : N, (if neg then - Z.of_N x else Z.of_N x) * 1 = (if neg then - Z.of_N x else Z.of_N x)) by (intros; lia).
+    assert (Hm : m = if neg then - Z.of_N n else Z.of_N n) by (unfold neg, n; destruct (m <? 0) eqn:Em; lia).
+    assert (Hsg_e : Forall no_e (if neg then [45%N] else [])) by (destruct neg; repeat constructor; unfold no_e; lia).
+    assert (Hsg_d : count_dots (if neg then [45%N] else []) = 0%nat) by (destruct neg; reflexivity).
+    destruct fp' as [|f0 fr] eqn:Efp.
+    + (* the fraction was all zeros *)
+      exists (if neg then - Z.of_N (dval ip) else Z.of_N (dval ip)), 0. split.
+      * unfold dec_parse. rewrite app_nil_r.
+        rewrite split_at_e_none by (apply Forall_app; split; [exact Hsg_e|apply digits_no_e; exact Hipd]).
+        rewrite count_dots_app, Hsg_d, (count_dots_digits ip Hipd). cbn [Nat.add Nat.ltb Nat.leb Nat.eqb].
+        rewrite parse_Z_signed by assumption. reflexivity.
+      * unfold dec_eq. cbn [fst snd]. rewrite Z.min_l by lia. rewrite Z.sub_diag. cbn [Z.pow].
+        rewrite Hj in Hval. cbn [app] in Hval. rewrite dval_app, dval_zeros, repeat_length in Hval.
+        cbn [length] in Hlen. replace (0 - e) with (Z.of_nat j) by (unfold k in Hlen; lia).
+        assert (Hp : Z.of_N (10 ^ N.of_nat j) = 10 ^ Z.of_nat j) by (rewrite N2Z.inj_pow, nat_N_Z; reflexivity).
+        rewrite Hm. destruct neg; nia.
+    + exists (if neg then - Z.of_N (dval (ip ++ f0 :: fr)) else Z.of_N (dval (ip ++ f0 :: fr))), (- Z.of_nat (length (f0 :: fr))). split.
+      * unfold dec_parse.
+        rewrite split_at_e_none.
+        2:{ apply Forall_app; split; [exact Hsg_e|]. apply Forall_app; split; [apply digits_no_e; exact Hipd|].
+            constructor; [unfold no_e; lia|apply digits_no_e; exact Hfpd']. }
+        rewrite !count_dots_app, Hsg_d, (count_dots_digits ip Hipd).
+        change (count_dots (46%N :: f0 :: fr)) with (S (count_dots (f0 :: fr))).
+        rewrite (count_dots_digits _ Hfpd'). cbn [Nat.add Nat.ltb Nat.leb Nat.eqb].
+        assert (Hsd2 : split_at_dot ((if neg then [45%N] else []) ++ ip ++ 46%N :: f0 :: fr) =
+                       ((if neg then [45%N] else []) ++ ip, f0 :: fr)).
+        { rewrite app_assoc. destruct neg; cbn [app].
+          - cbn [split_at_dot]. change (N.eqb 45 46) with false. cbv iota. rewrite split_at_dot_digits by exact Hipd. reflexivity.
+          - apply split_at_dot_digits. exact Hipd. }
+        rewrite Hsd2. rewrite <- app_assoc.
+        rewrite parse_Z_signed; [|destruct ip; discriminate|rewrite forallb_app, Hipd; exact Hfpd'].
+        replace (0 - Z.of_nat (length (f0 :: fr))) with (- Z.of_nat (length (f0 :: fr))) by lia.
+        replace (in_int32 (- Z.of_nat (length (f0 :: fr)))) with true; [reflexivity|].
+        unfold in_int32. unfold k in Hlen. lia.
+      * unfold dec_eq. cbn [fst snd].
+        assert (Hee : e = - Z.of_nat k) by (unfold k; lia).
+        rewrite Z.min_l by lia. rewrite Z.sub_diag. cbn [Z.pow].
+        replace (- Z.of_nat (length (f0 :: fr)) - e) with (Z.of_nat j) by lia.
+        rewrite Hj in Hval. rewrite app_assoc in Hval. rewrite dval_app, dval_zeros, repeat_length in Hval.
+        assert (Hp : Z.of_N (10 ^ N.of_nat j) = 10 ^ Z.of_nat j) by (rewrite N2Z.inj_pow, nat_N_Z; reflexivity).
+        rewrite Hm. destruct neg; nia.
+Qed.
+
+(* what the decoder stores for an accepted decimal text denotes the same number *)
+Theorem dec_normalise_numeric s s' : dec_normalise s = Some s' ->
+  exists a b, dec_parse s = Some a /\ dec_parse s' = Some b /\ dec_eq a b.
+Proof.
+  unfold dec_normalise. destruct (dec_parse s) as [[m e]|] eqn:E; [|discriminate].
+  destruct ((e <=? max_decimal_exponent) && (- max_decimal_exponent <=? e)) eqn:Eb; [|discriminate].
+  intros [= <-]. unfold max_decimal_exponent in Eb.
+  destruct (dec_parse_print m e ltac:(lia)) as (m' & e' & Hp & Heq).
+  exists (m, e), (m', e'). repeat split; assumption.
+Qed.
